@@ -24,7 +24,7 @@ sequences stripped when coloured), equals the parameters of the successful repli
 every expected reply arrived and none was an error; on an error reply stderr names the error (short name for the \
 standard ones) and shows its parameter / parameters; the fake service received exactly the method, the `more` flag \
 and the arguments given. Every other abstract name contains slashes and dots, every other tcp address names the host. Non-trivial: --more with k >= 1, an error reply, a closed connection, or a nested reply \
-value; distinct by (script, values, address form, color).";
+value; distinct by (script, values, address form, color). One reply script in three is written by the scripted service in about 37 pieces with pauses (chunk boundaries anywhere, also inside a multi-byte character); large values are ASCII or runs of three-byte characters.";
 
 #[derive(Clone, Debug)]
 pub enum Final {
@@ -156,7 +156,20 @@ fn serve_one(l: Listener, script: Vec<u8>, close_after: bool, give_up: std::sync
         if let Some(p) = served.raw.iter().position(|b| *b == 0) {
             served.request = serde_json::from_slice(&served.raw[..p]).ok();
         }
-        let _ = stream.write_all(&script);
+        // one script in three is written in about 37 pieces with pauses, so that the tool reads the replies
+        // in several chunks whose boundaries fall anywhere - also inside a multi-byte character
+        if vl_model::ctx::hash64(&script) % 3 == 0 && script.len() > 12 {
+            let seg = (script.len() / 37).max(5);
+            for piece in script.chunks(seg) {
+                if stream.write_all(piece).is_err() {
+                    break;
+                }
+                let _ = stream.flush();
+                std::thread::sleep(Duration::from_micros(700));
+            }
+        } else {
+            let _ = stream.write_all(&script);
+        }
         if close_after {
             stream.close();
         } else {
@@ -466,9 +479,11 @@ pub fn run(args: &Args) -> ! {
         }
     }
     // large reply values: below, at and above 64 KiB and 1 MiB, as the only reply and inside a stream
-    for size in [65_000usize, 65_536, 70_000, 300_000, 1_100_000] {
+    for size in [9_000usize, 20_000, 65_000, 65_536, 70_000, 71_000, 300_000, 301_001, 1_100_000] {
         for more in [false, true] {
-            let blob = "b".repeat(size);
+            // every other size: three-byte characters behind a lead of 0..2 bytes, so that the 8 KiB read
+            // boundaries of the tool fall inside a character whatever the offset of the value in the message
+            let blob = if (size / 1000) % 2 == 0 { "b".repeat(size) } else { format!("{}{}", "x".repeat(size % 3), "\u{20ac}".repeat(size / 3)) };
             let c = Case {
                 more,
                 conts: if more { vec![Some(json!({"blob": blob, "i": 0})), Some(json!({"i": 1}))] } else { vec![] },
